@@ -427,7 +427,7 @@ func report(o *Options, w *World, prop string, seed int, all []*Obligation, repo
 	exit := 0
 	replayDir := filepath.Join(o.verif, "out", "replays", prop)
 	os.RemoveAll(replayDir)
-	var violLines []string
+	var violLines, knownLines []string
 	// one violation per obligation (the same clause failing on several paths is one obligation): pick a
 	// representative with a counterexample if there is one
 	type group struct {
@@ -475,9 +475,15 @@ func report(o *Options, w *World, prop string, seed int, all []*Obligation, repo
 		}(i, groups[base].rep)
 	}
 	rwg.Wait()
+	known := loadKnownFindings(o, prop)
 	for i, base := range gorder {
 		g := groups[base]
 		ob := g.rep
+		if kf := matchKnown(known, base); kf != nil && knownCovers(o, w, kf, g.all) {
+			// a listed genuine defect: reported, not an alarm (a different violation of the same property still is)
+			knownLines = append(knownLines, fmt.Sprintf("KNOWN-FINDING: property=%s %s %s", prop, base, kf.What))
+			continue
+		}
 		os.MkdirAll(replayDir, 0o755)
 		safe := strings.NewReplacer("/", "_", " ", "_", "*", "", "(", "", ")", "", "#", "-", "@", "-").Replace(base)
 		path := filepath.Join(replayDir, safe+".json")
@@ -580,7 +586,7 @@ func report(o *Options, w *World, prop string, seed int, all []*Obligation, repo
 			"vacuity":             map[string]interface{}{"covers": nCover, "covered": nCovered, "vacuous": len(vacuous)},
 			"solver_splits":       d.splits,
 			"contract_token_scan": scan, "per_function": reports,
-			"failed": names(failed), "undecided": names(undecided),
+			"failed": names(failed), "undecided": names(undecided), "known_findings_reported": knownLines,
 		},
 	}
 	os.MkdirAll(filepath.Join(o.verif, "evidence"), 0o755)
@@ -603,10 +609,94 @@ func report(o *Options, w *World, prop string, seed int, all []*Obligation, repo
 	for _, ob := range append(append([]*Obligation{}, failed...), undecided...) {
 		fmt.Printf("  FAILED %s/%s [%s] %s %s %s\n", ob.Func, ob.Name, ob.Status, ob.Pos, ob.Clause, ob.Note)
 	}
+	for _, l := range knownLines {
+		fmt.Println(l)
+	}
 	for _, l := range violLines {
 		fmt.Println(l)
 	}
 	return exit
+}
+
+type knownFinding struct {
+	Property   string `json:"property"`
+	Obligation string `json:"obligation"` // Func/Name of the obligation (without the ~path suffix)
+	Class      string `json:"class"`      // contract expression over the function's parameters: the failing inputs
+	What       string `json:"what"`
+}
+
+// knownCovers: the finding covers the failure only if, outside its input class, the obligation discharges on
+// every path (so a different violation of the same obligation is still reported).
+func knownCovers(o *Options, w *World, kf *knownFinding, obs []*Obligation) bool {
+	if strings.TrimSpace(kf.Class) == "" {
+		return false // a finding must say which inputs fail
+	}
+	for _, ob := range obs {
+		x := ob.ex
+		if x == nil {
+			return false
+		}
+		lx, err := lexLines("known_findings.json", []string{kf.Class}, []int{1})
+		if err != nil {
+			return false
+		}
+		e, err := (&eparser{lx}).parseExpr(0)
+		if err != nil {
+			return false
+		}
+		var cls *Term
+		func() {
+			defer func() {
+				if r := recover(); r != nil {
+					cls = nil
+				}
+			}()
+			cls = x.evalBool(&EvalCtx{x: x, st: x.entry, old: x.entry, env: x.specEnv(nil), sf: funcHome[x.spec]}, e)
+		}()
+		if cls == nil {
+			return false
+		}
+		asserts := append(append([]*Term{}, ob.PC...), Not(cls), Not(ob.Goal))
+		sc := w.Reg.BuildScript(asserts, "")
+		file := filepath.Join(o.verif, "out", "vc", "known-"+fmt.Sprintf("%d", time.Now().UnixNano()))
+		os.MkdirAll(filepath.Dir(file), 0o755)
+		r := runSolver(solvers[0], sc.Text, file, 10)
+		os.Remove(file + "." + solvers[0].name + ".smt2")
+		if r.status != "unsat" {
+			return false
+		}
+	}
+	return true
+}
+
+// loadKnownFindings reads /verif/known_findings.json (committed; never written at run time).
+func loadKnownFindings(o *Options, prop string) []knownFinding {
+	var doc struct {
+		Known []knownFinding `json:"known"`
+	}
+	b, err := os.ReadFile(filepath.Join("/verif", "known_findings.json"))
+	if err != nil {
+		return nil
+	}
+	if json.Unmarshal(b, &doc) != nil {
+		return nil
+	}
+	var out []knownFinding
+	for _, k := range doc.Known {
+		if k.Property == prop {
+			out = append(out, k)
+		}
+	}
+	return out
+}
+
+func matchKnown(ks []knownFinding, base string) *knownFinding {
+	for i := range ks {
+		if ks[i].Obligation == base {
+			return &ks[i]
+		}
+	}
+	return nil
 }
 
 func names(obs []*Obligation) []string {
